@@ -32,6 +32,7 @@ PROP = dict(
                "collection-valued literals; rewrites in programs outside the modelled fragment. Theorems hold 'if both sides return' "
                "(a side that exhausts its closure-call budget is related to anything); the first-order fragment needs budget 0.",
     design_ref="DESIGN.md section 6, C08",
+    env={"HARNESS_TIMEOUT_MS": "60000"},
     watch=["syntax.ParseContext.compileLet", "syntax.ParseContext.compileArrow", "syntax.ParseContext.compileFunction",
            "syntax.ParseContext.compileExpr", "syntax.ParseContext.compileCondWithoutControlVar", "syntax.ParseContext.compileSet",
            "syntax.ParseContext.compileDict", "syntax.ParseContext.compileArray", "syntax.ParseContext.compileTuple",
